@@ -204,6 +204,7 @@ Section Tight.
 Notation sub := (sub true).
 Notation bufferize1 := (bufferize1 true).
 Notation copy_fields := (copy_fields true).
+Notation copy_values := (copy_values true).
 Notation step := (step true).
 
 Lemma read_sub h s off : off <= s_len s -> read h (sub s off) = skipn off (read h s).
@@ -286,6 +287,53 @@ Proof.
     intros L0. pose proof (Z2 L0) as E2. rewrite E2 in L0 |- *. auto.
 Qed.
 
+(* ---------- values of the client outside the buffer; CopyTo of the built-in inspectors ---------- *)
+Lemma source1_inv h bb lg isstr d h' x :
+  Inv3 h bb lg -> source1 h isstr d = (h', x) ->
+  Inv3 h' bb (lg ++ [x]) /\ hd_want x = d /\ hd_live x = true.
+Proof.
+  intros (WB & FA & PW) S. unfold source1, alloc in S. injection S as <- <-.
+  split; [|split; reflexivity].
+  pose proof WB as (B1 & B2 & B3).
+  split; [|split].
+  - unfold wf_slice; simpl. split; [lia|]. split; [|exact B3].
+    destruct (Nat.eqb_spec (s_arr bb) (h_next h)); [lia|auto].
+  - apply Forall_app; split.
+    + rewrite Forall_forall in FA |- *. intros y Hy Ly.
+      destruct (FA y Hy Ly) as ((Wy1 & Wy2 & Wy3) & Ry & Fy).
+      split; [|split; [|exact Fy]].
+      * unfold wf_slice; simpl. split; [lia|]. split; [|exact Wy3].
+        destruct (Nat.eqb_spec (s_arr (hd_sl y)) (h_next h)); [lia|auto].
+      * rewrite <- Ry. unfold read; simpl.
+        destruct (Nat.eqb_spec (s_arr (hd_sl y)) (h_next h)); [lia|reflexivity].
+    + constructor; [|constructor]. intros _.
+      destruct isstr; unfold mk_hand; simpl.
+      * split; [unfold wf_slice; simpl; rewrite Nat.eqb_refl; simpl; lia|]. split.
+        -- unfold read; simpl. rewrite Nat.eqb_refl; simpl. apply map_nth_seq0.
+        -- simpl. intros E. lia.
+      * split; [unfold wf_slice; simpl; rewrite Nat.eqb_refl; simpl; lia|]. split.
+        -- unfold read; simpl. rewrite Nat.eqb_refl; simpl. apply map_nth_seq0.
+        -- simpl. intros E. lia.
+  - apply pairwise_snoc; auto. intros y Hy Ly _.
+    rewrite Forall_forall in FA. destruct (FA y Hy Ly) as ((Wy1 & _) & _).
+    left. destruct isstr; simpl; lia.
+Qed.
+
+Lemma copy_values_inv its : forall h bb lg e h' bb' xs,
+  Inv3 h bb lg -> copy_values h bb its e = (h', bb', xs) -> Inv3 h' bb' (lg ++ xs).
+Proof.
+  induction its as [|[[ss ds] d] r IH]; intros h bb lg e h' bb' xs I C; cbn [Buffer.copy_values] in C.
+  - inversion C; subst. rewrite app_nil_r. auto.
+  - destruct (source1 h ss d) as [h0 x0] eqn:S.
+    destruct (bufferize1 h0 bb ds d e) as [[h1 bb1] x] eqn:B.
+    destruct (copy_values h1 bb1 r e) as [[h2 bb2] xs'] eqn:C'.
+    injection C as <- <- <-.
+    destruct (source1_inv _ _ _ _ _ _ _ I S) as (I0 & _).
+    destruct (bufferize1_inv _ _ _ _ _ _ _ _ _ I0 B) as (I1 & _).
+    pose proof (IH _ _ _ _ _ _ _ I1 C') as I2.
+    rewrite <- !app_assoc in I2. exact I2.
+Qed.
+
 Lemma release_eq bb bb' : (s_len bb' = 0 -> bb' = bb) -> release bb bb' = bb'.
 Proof.
   intros H. unfold release. destruct (Nat.eqb_spec (s_len bb') 0) as [E|E]; auto. symmetry; auto.
@@ -316,7 +364,7 @@ Qed.
 Theorem step_inv st o : Inv st -> Inv (step st o).
 Proof.
   destruct st as [h bb lg]. unfold Inv; simpl. intros I.
-  destruct o as [d e|d e|d e|d e|d e|fs e| |k i c|k d e|k d e|k e|fs e|k d e]; simpl.
+  destruct o as [d e|d e|d e|d e|d e|fs e| |k i c|k d e|k d e|k e|fs e|k d e|isstr d|reuse ts e|reuse ss ds l e]; simpl.
   - destruct (bufferize1 h bb false d e) as [[h' bb'] x] eqn:B. simpl.
     apply (bufferize1_inv _ _ _ _ _ _ _ _ _ I B).
   - destruct (bufferize1 h bb true d e) as [[h' bb'] x] eqn:B. simpl.
@@ -452,6 +500,14 @@ Proof.
     destruct (bufferize1 h bb false d e) as [[h' bb'] x] eqn:B. simpl.
     destruct (bufferize1_inv _ _ _ _ _ _ _ _ _ I B) as (I' & Z & _).
     rewrite (release_eq _ _ Z). exact I'.
+  - (* a value of the client outside the buffer comes under observation *)
+    destruct (source1_inv h bb lg isstr d _ _ I eq_refl) as (I' & _). exact I'.
+  - (* CopyTo of the built-in map inspector: one Bufferize per text value, sources observed *)
+    destruct (copy_values h bb (items_of_toks ts) e) as [[h' bb'] xs] eqn:C. simpl.
+    apply (copy_values_inv _ _ _ _ _ _ _ _ I C).
+  - (* CopyTo of the built-in strings inspector *)
+    destruct (copy_values h bb (items_of_strings ss ds l) e) as [[h' bb'] xs] eqn:C. simpl.
+    apply (copy_values_inv _ _ _ _ _ _ _ _ I C).
 Qed.
 
 Lemma init_inv size : Inv (init size).
@@ -539,7 +595,7 @@ Proof.
   intros Hk T NR. destruct st as [h bb lg]; simpl in *.
   assert (APP : forall xs, nth_error (lg ++ xs) k = Some x)
     by (intros xs; rewrite nth_error_app1; auto; apply nth_error_Some; congruence).
-  destruct o as [d e|d e|d e|d e|d e|fs e| |k' i c|k' d e|k' d e|k' e|fs e|k' d e]; simpl in *;
+  destruct o as [d e|d e|d e|d e|d e|fs e| |k' i c|k' d e|k' d e|k' e|fs e|k' d e|isstr d|reuse ts e|reuse ss ds l e]; simpl in *;
     try congruence.
   - destruct (bufferize1 tight h bb false d e) as [[? ?] ?]; simpl; eauto.
   - destruct (bufferize1 tight h bb true d e) as [[? ?] ?]; simpl; eauto.
@@ -564,6 +620,48 @@ Proof.
     destruct (bufferize1 tight h bb (hd_str y) (hd_want y) e) as [[? ?] ?]; simpl; eauto.
   - destruct (copy_fields tight h bb fs e) as [[? ?] ?]; simpl; eauto.
   - destruct (bufferize1 tight h bb false d e) as [[? ?] ?]; simpl; eauto.
+  - destruct (source1 h isstr d) as [? ?]; simpl; eauto.
+  - destruct (copy_values tight h bb (items_of_toks ts) e) as [[? ?] ?]; simpl; eauto.
+  - destruct (copy_values tight h bb (items_of_strings ss ds l) e) as [[? ?] ?]; simpl; eauto.
+Qed.
+
+(* ---------- a built-in CopyTo is the sequence of its Bufferize calls ---------- *)
+Lemma expand_items_cons ss ds d r e :
+  expand_items ((ss, ds, d) :: r) e
+  = OSource ss d :: (if ds then OBufferizeString d e else OBufferize d e) :: expand_items r e.
+Proof. reflexivity. Qed.
+
+Lemma copy_values_expand tight its : forall e h bb lg,
+  (let '(h', bb', xs) := Buffer.copy_values tight h bb its e in
+   {| st_heap := h'; st_bb := bb'; st_log := lg ++ xs |})
+  = fold_left (Buffer.step tight) (expand_items its e) {| st_heap := h; st_bb := bb; st_log := lg |}.
+Proof.
+  induction its as [|[[ss ds] d] r IH]; intros e h bb lg.
+  - simpl. rewrite app_nil_r. reflexivity.
+  - rewrite expand_items_cons. cbn [fold_left Buffer.copy_values].
+    destruct (source1 h ss d) as [h0 x0] eqn:S.
+    assert (E0 : Buffer.step tight {| st_heap := h; st_bb := bb; st_log := lg |} (OSource ss d)
+                 = {| st_heap := h0; st_bb := bb; st_log := lg ++ [x0] |}).
+    { unfold Buffer.step. cbn [st_heap st_bb st_log]. rewrite S. reflexivity. }
+    rewrite E0.
+    destruct (Buffer.bufferize1 tight h0 bb ds d e) as [[h1 bb1] x] eqn:B.
+    assert (E : Buffer.step tight
+                  {| st_heap := h0; st_bb := bb; st_log := lg ++ [x0] |}
+                  (if ds then OBufferizeString d e else OBufferize d e)
+                = {| st_heap := h1; st_bb := bb1; st_log := (lg ++ [x0]) ++ [x] |}).
+    { destruct ds; unfold Buffer.step; cbn [st_heap st_bb st_log]; rewrite B; reflexivity. }
+    rewrite E, <- IH.
+    destruct (Buffer.copy_values tight h1 bb1 r e) as [[h2 bb2] xs] eqn:C.
+    rewrite <- !app_assoc. reflexivity.
+Qed.
+
+Theorem builtin_copy_is_bufferize_sequence tight st :
+  (forall reuse ts e, Buffer.step tight st (OCopyMap reuse ts e)
+                      = fold_left (Buffer.step tight) (expand_items (items_of_toks ts) e) st) /\
+  (forall reuse ss ds l e, Buffer.step tight st (OCopyStrings reuse ss ds l e)
+                      = fold_left (Buffer.step tight) (expand_items (items_of_strings ss ds l) e) st).
+Proof.
+  destruct st as [h bb lg]. split; intros; simpl; apply copy_values_expand.
 Qed.
 
 
